@@ -80,8 +80,14 @@ async fn run_case(seed: u64, idx: u64, world: &[Node], thorough: bool) -> Outcom
     let par = rng.range(1, 4) as usize;
     let predicate = rng.chance(1, 3);
     let target_peer_no = rng.range(1, 6) as usize;
-    let query_timeout = 20_000u64;
+    // the pool's clocks are std::time::Instant (real time, not the paused tokio clock): in one case out
+    // of six the query timeout is a few real milliseconds, nobody answers, and the lookup must be cut
+    // off by it and still hand its (partial) result to the caller
+    let timeout_case = rng.chance(1, 6);
+    let query_timeout = if timeout_case { 30u64 } else { 20_000u64 };
     let peer_timeout = 2_000u64;
+    // the size of NODES answers this node SERVES has nothing to do with the size of a lookup (k = 16)
+    let max_nodes_response = *rng.pick(&[16usize, 16, 40, 64, 5]);
     let local_key = CombinedKey::generate_secp256k1();
     let local_enr = {
         let mut b = Enr::builder();
@@ -94,6 +100,7 @@ async fn run_case(seed: u64, idx: u64, world: &[Node], thorough: bool) -> Outcom
     cb.query_parallelism(par)
         .query_timeout(Duration::from_millis(query_timeout))
         .query_peer_timeout(Duration::from_millis(peer_timeout))
+        .max_nodes_response(max_nodes_response)
         .ping_interval(Duration::from_secs(100_000))
         .disable_report_discovered_peers();
     let config = cb.build();
@@ -143,9 +150,12 @@ async fn run_case(seed: u64, idx: u64, world: &[Node], thorough: bool) -> Outcom
     let mut asked: Vec<usize> = vec![];
     let mut answered: BTreeSet<usize> = BTreeSet::new();
     let mut silent: Vec<(Vec<u8>, usize)> = vec![];
+    // candidates the lookup learned of from answers delivered while their request was in flight
+    let mut reported: BTreeSet<usize> = BTreeSet::new();
+    let mut removed: Vec<usize> = vec![];
     let mut ever_many = false;
     let mut now = 0u64;
-    let style = rng.below(4); // 0: mostly answers, 1: mixed, 2: mostly failures, 3: mostly silence
+    let style = if timeout_case { 4 } else { rng.below(4) }; // 0: mostly answers, 1: mixed, 2: mostly failures, 3: mostly silence, 4: silence only
     let mut steps = 0;
     let max_steps = if thorough { 4000 } else { 1500 };
     while done.lock().unwrap().is_empty() && steps < max_steps {
@@ -173,7 +183,8 @@ async fn run_case(seed: u64, idx: u64, world: &[Node], thorough: bool) -> Outcom
                             0 => rng.weighted(&[8, 1, 1]),
                             1 => rng.weighted(&[4, 3, 3]),
                             2 => rng.weighted(&[2, 7, 1]),
-                            _ => rng.weighted(&[2, 1, 7]),
+                            3 => rng.weighted(&[2, 1, 7]),
+                            _ => 2,
                         };
                         let na = NodeAddress { socket_addr: contact.socket_addr(), node_id: contact.node_id() };
                         match fate {
@@ -188,6 +199,9 @@ async fn run_case(seed: u64, idx: u64, world: &[Node], thorough: bool) -> Outcom
                                     let d = log2d(&world[j].id, &pid);
                                     if distances.contains(&d) && !recs.iter().any(|r| r.node_id().raw() == world[j].id) {
                                         recs.push(world[j].enr.clone());
+                                        if j != pi {
+                                            reported.insert(j);
+                                        }
                                     }
                                 }
                                 let total = if recs.len() >= 2 && rng.chance(1, 3) { 2 } else { 1 };
@@ -216,6 +230,15 @@ async fn run_case(seed: u64, idx: u64, world: &[Node], thorough: bool) -> Outcom
             }
         }
         settle().await;
+        // now and then a routing-table entry that the lookup has been told about, but has not asked
+        // yet, leaves the table (the user removes it): the lookup keeps its own copy of the record
+        if rng.chance(1, 8) {
+            if let Some(j) = table.iter().cloned().find(|j| reported.contains(j) && !asked.contains(j) && !removed.contains(j)) {
+                let _ = svc.discv5.remove_node(&world[j].enr.node_id());
+                removed.push(j);
+                settle().await;
+            }
+        }
         // C09: never more lookups requests in flight than the parallelism (or, once stalled, than the number of results)
         let unexpired = in_flight.values().filter(|(_, t)| now < t + peer_timeout).count();
         if unexpired > par.max(k) {
@@ -228,6 +251,13 @@ async fn run_case(seed: u64, idx: u64, world: &[Node], thorough: bool) -> Outcom
         tokio::time::advance(Duration::from_millis(250)).await;
         now += 250;
         settle().await;
+        if timeout_case {
+            // real time passes; the service loop looks at the pool when something wakes it
+            std::thread::sleep(Duration::from_millis(12));
+            let _ = svc.inject(HandlerOut::RequestFailed(RequestId(vec![0xfe, 0xfe, 0xfe, steps as u8]), discv5::RequestError::Timeout));
+            settle().await;
+            continue;
+        }
         if !silent.is_empty() && rng.chance(1, 6) {
             let (rid, pi) = silent.remove(0);
             let na = NodeAddress { socket_addr: world[pi].enr.udp4_socket().unwrap().into(), node_id: world[pi].enr.node_id() };
@@ -275,12 +305,22 @@ async fn run_case(seed: u64, idx: u64, world: &[Node], thorough: bool) -> Outcom
                         _ => fails.push(("C10".into(), "the result contains a node that did not answer the lookup's request".into())),
                     }
                 }
+                // C10: fewer than k results and not cut off by the query timeout: every candidate the
+                // lookup learned of was contacted
+                if enrs.len() < k && !timeout_case {
+                    if let Some(j) = reported.iter().find(|j| !asked.contains(j)) {
+                        fails.push(("C10".into(), format!("the lookup ended by itself with {} of {} results although a candidate it learned of from an answer was never contacted{}", enrs.len(), k, if removed.contains(j) { " (the candidate had left the routing table in the meantime)" } else { "" }).chars().map(|c| if c.is_ascii_digit() { '#' } else { c }).collect()));
+                    }
+                }
                 if predicate && enrs.iter().any(|e| e.tcp4().is_none()) {
                     fails.push(("C10".into(), "a predicate lookup returned a node whose record does not satisfy the predicate".into()));
                 }
             }
         }
-        if now > query_timeout + 60_000 {
+        if timeout_case {
+            script.push("query timeout of 30 ms (real time), every peer silent".into());
+        }
+        if !timeout_case && now > query_timeout + 60_000 {
             fails.push(("C09".into(), "the lookup outlived the query timeout by more than a minute".into()));
         }
     }
@@ -318,6 +358,9 @@ pub fn main(args: &[String]) {
             sum.distinct_nontrivial += 1;
         }
         sum.hist.add(if out.nontrivial { "lookup:asked_two_or_more_peers" } else { "lookup:asked_fewer_than_two_peers" });
+        if out.script.iter().any(|x| x.contains("query timeout of 30 ms")) {
+            sum.hist.add("lookup:cut_off_by_a_real_time_query_timeout_and_result_delivered");
+        }
         if sum.samples.len() < 3 {
             sum.samples.push(J::obj(vec![("case", J::I(idx as i64)), ("script", J::A(out.script.iter().map(|x| J::s(x.clone())).collect()))]));
         }
